@@ -384,23 +384,24 @@ pub fn nsec_proves(recs: &[&NsecRec], qname: &Name, qtype: u16, claim: &Claim, h
 // ------------------------------------------------------------------------------------------
 // layer 2: entailment, NSEC3 (RFC 5155 8.3 - 8.8, RFC 6840 4.1)
 
-struct N3<'a> {
-    recs: &'a [Nsec3Rec],
-    salt: &'a [u8],
-    iterations: u16,
+/// A view on a set of NSEC3 records sharing (salt, iterations). `hasher` maps a name to its
+/// NSEC3 hash under those parameters (callers may memoise; [`nsec3_hash`] is the definition).
+pub struct N3<'a> {
+    pub recs: &'a [&'a Nsec3Rec],
+    pub hasher: &'a dyn Fn(&Name) -> Vec<u8>,
 }
 
 impl<'a> N3<'a> {
     fn hash(&self, n: &Name) -> Vec<u8> {
-        nsec3_hash(n, self.salt, self.iterations)
+        (self.hasher)(n)
     }
-    fn matching(&self, n: &Name) -> Option<&'a Nsec3Rec> {
+    pub fn matching(&self, n: &Name) -> Option<&'a Nsec3Rec> {
         let h = self.hash(n);
-        self.recs.iter().find(|r| r.hash == h)
+        self.recs.iter().copied().find(|r| r.hash == h)
     }
-    fn covering(&self, n: &Name) -> Option<&'a Nsec3Rec> {
+    pub fn covering(&self, n: &Name) -> Option<&'a Nsec3Rec> {
         let h = self.hash(n);
-        self.recs.iter().find(|r| {
+        self.recs.iter().copied().find(|r| {
             if r.hash < r.next {
                 r.hash < h && h < r.next
             } else {
@@ -412,7 +413,7 @@ impl<'a> N3<'a> {
     /// RFC 5155 8.3: longest ancestor(-or-self) with a matching record that is not a delegation
     /// (NS without SOA) nor a DNAME owner, plus a covering record for the next closer name.
     /// Returns (closest encloser, record covering the next closer name).
-    fn closest_encloser_proof(&self, apex: &Name, qname: &Name) -> Option<(Name, &'a Nsec3Rec)> {
+    pub fn closest_encloser_proof(&self, apex: &Name, qname: &Name) -> Option<(Name, &'a Nsec3Rec)> {
         for k in (apex.num_labels()..qname.num_labels()).rev() {
             let ce = qname.suffix(k);
             if let Some(m) = self.matching(&ce) {
@@ -444,12 +445,28 @@ pub enum Proof3 {
 /// Does the NSEC3 record set prove the claim for (qname, qtype) in the zone `apex`? All records
 /// must belong to that zone and share salt and iterations (RFC 5155 8.2).
 pub fn nsec3_proves(
-    recs: &[Nsec3Rec],
+    recs: &[&Nsec3Rec],
     apex: &Name,
     qname: &Name,
     qtype: u16,
     claim: &Claim,
     has_parent: &dyn Fn(&Name) -> bool,
+) -> Proof3 {
+    let Some(first) = recs.first() else { return Proof3::No };
+    let (salt, iterations) = (first.salt.clone(), first.iterations);
+    nsec3_proves_with(recs, apex, qname, qtype, claim, has_parent, &move |n: &Name| nsec3_hash(n, &salt, iterations))
+}
+
+/// As [`nsec3_proves`] with a caller-supplied (memoising) hash function for the records' parameters.
+#[allow(clippy::too_many_arguments)]
+pub fn nsec3_proves_with(
+    recs: &[&Nsec3Rec],
+    apex: &Name,
+    qname: &Name,
+    qtype: u16,
+    claim: &Claim,
+    has_parent: &dyn Fn(&Name) -> bool,
+    hasher: &dyn Fn(&Name) -> Vec<u8>,
 ) -> Proof3 {
     let yes = |b: bool| if b { Proof3::Yes } else { Proof3::No };
     let Some(first) = recs.first() else { return Proof3::No };
@@ -459,7 +476,7 @@ pub fn nsec3_proves(
     if !qname.at_or_below(apex) {
         return Proof3::No;
     }
-    let cx = N3 { recs, salt: &first.salt, iterations: first.iterations };
+    let cx = N3 { recs, hasher };
     let no_type = |r: &Nsec3Rec| !r.types.contains(&qtype) && !r.types.contains(&z::T_CNAME);
     let is_delegation = |r: &Nsec3Rec| r.types.contains(&z::T_NS) && !r.types.contains(&z::T_SOA);
     let weaken = |cover: &Nsec3Rec, ok: bool| {
@@ -700,8 +717,8 @@ pub fn self_test() -> Vec<String> {
         ("wildcard expansion for an existing name", "x.w.example.", z::T_MX, Claim::Wildcard { source: n("*.w.example."), rtype: z::T_MX }, No, No, false),
     ];
     for (what, q, t, claim, want_optout, want_plain, want_truth) in cases3 {
-        let p = nsec3_proves(&chain3, &apex, &n(q), t, &claim, &none);
-        let pp = nsec3_proves(&chain_plain, &apex, &n(q), t, &claim, &none);
+        let p = nsec3_proves(&chain3.iter().collect::<Vec<_>>(), &apex, &n(q), t, &claim, &none);
+        let pp = nsec3_proves(&chain_plain.iter().collect::<Vec<_>>(), &apex, &n(q), t, &claim, &none);
         let tr = truth(&zones5, &n(q), t, &claim).is_ok();
         if p != want_optout {
             bad.push(format!("RFC 5155 {what}: nsec3_proves (opt-out chain) = {p:?}, expected {want_optout:?}"));
@@ -719,6 +736,7 @@ pub fn self_test() -> Vec<String> {
         .filter(|r| ["0p9mhave", "b4um86eg", "35mthgpg"].iter().any(|p| base32hex(&r.hash).starts_with(p)))
         .cloned()
         .collect();
+    let three: Vec<&Nsec3Rec> = three.iter().collect();
     if nsec3_proves(&three, &apex, &n("a.c.x.w.example."), z::T_A, &Claim::NxDomain, &none) != OptOut {
         bad.push("RFC 5155 B.1: the three records of the example response do not prove the name error".into());
     }
